@@ -59,8 +59,8 @@ def has_atom(have, name, x, y):
     return False
 
 
-def mk(prog, cls, k, nchan, start=True, align="center", same_sr=False, same_bw=False, extra=()):
-    n = sp.Symbol(f"N{k}", integer=True, positive=True)
+def mk(prog, cls, k, nchan, start=True, align="center", same_sr=False, same_bw=False, extra=(), zero_len=False):
+    n = sp.Integer(0) if zero_len else sp.Symbol(f"N{k}", integer=True, positive=True)
     sr = sp.Symbol("SR0" if same_sr else f"SR{k}", positive=True)
     cf = sp.Symbol(f"CF{k}", real=True)
     bw = sp.Symbol("BW0" if same_bw else f"BW{k}", positive=True)
@@ -142,10 +142,12 @@ def check(run, prog):
         ck.same("R3", fi.where, "result type " + tag, "same class as the pieces", out.cls is sigs[0].cls, found=out.cls.name)
 
     # ------------------------------------------------------------------ frequency axis
-    for cls, nch, aligns, starts, axis in (("RadioSignal", (2, 3, 2), ("bottom", "center", "top"), (True, True, True), StrV("freq")),
-                                           ("BasebandSignal", (2, 2, 1), ("top", "bottom", "center"), (False, True, True), Num(1))):
-        sigs, syms = zip(*[mk(prog, cls, k, nchan=nch[k], start=starts[k], align=aligns[k]) for k in range(3)])
-        tag = f"[{cls} x3 along frequency, channels {nch}, alignments {aligns}, start times {starts}]"
+    for cls, nch, aligns, starts, axis, zero_len in (("RadioSignal", (2, 3, 2), ("bottom", "center", "top"), (True, True, True), StrV("freq"), False),
+                                                     ("BasebandSignal", (2, 2, 1), ("top", "bottom", "center"), (False, True, True), Num(1), False),
+                                                     # a signal that is empty in time, split along frequency and put together again
+                                                     ("RadioSignal", (2, 3, 2), ("center", "center", "center"), (True, True, True), StrV("freq"), True)):
+        sigs, syms = zip(*[mk(prog, cls, k, nchan=nch[k], start=starts[k], align=aligns[k], zero_len=zero_len) for k in range(3)])
+        tag = f"[{cls} x3 along frequency, channels {nch}, alignments {aligns}, start times {starts}{', zero samples in time' if zero_len else ''}]"
         ev = ck.evaluator()
         out = ck.attempt("R1", fi.where, "concatenate(signals, axis='freq') " + tag, "evaluates", lambda: ev.call(fi, [ListV(list(sigs))], {"axis": axis}),
                          ev=ev, allowed_guards=["ValueError", "TypeError"])
